@@ -83,14 +83,39 @@ class OpCounter:
         return out
 
 
+def resolve(spec):
+    """'pkg.module:Qual.name' -> object (functions, staticmethods, classmethods unwrapped)."""
+    import importlib
+    mod, _, qual = spec.partition(":")
+    obj = importlib.import_module(mod)
+    for part in qual.split("."):
+        raw = None
+        if isinstance(obj, type):
+            raw = obj.__dict__.get(part)
+        obj = raw if raw is not None else getattr(obj, part)
+    while hasattr(obj, "__func__"):
+        obj = obj.__func__
+    return getattr(obj, "__wrapped__", obj)
+
+
+def _nested_codes(code, out):
+    out.append(code)
+    for c in code.co_consts:
+        if hasattr(c, "co_code"):
+            _nested_codes(c, out)
+
+
 class LineReach:
     def __init__(self, functions):
-        """functions: {label: function object}"""
+        """functions: {label: function object}; nested functions / classes defined inside are included."""
         self.codes = {}
         for label, fn in functions.items():
             code = getattr(fn, "__code__", None)
             if code is not None:
-                self.codes[code] = label
+                lst = []
+                _nested_codes(code, lst)
+                for c in lst:
+                    self.codes[c] = label
         self.hit = {label: set() for label in functions}
         self.installed = False
 
